@@ -183,8 +183,8 @@ def rule_st2_3_4(ctx: Ctx):
                     r4.ob(True)
                     r4.paths += 1
     r2.notes.append("%d state ids found in Probe branches" % nstates)
-    r2.require_instances(18)
-    r3.require_instances(18)
+    r2.require_instances(ctx.scaled(18))
+    r3.require_instances(ctx.scaled(18))
     return [r2, r3, r4]
 
 
@@ -352,7 +352,7 @@ def rule_st6(ctx: Ctx) -> RuleResult:
                             "child key index %s is not injective over live children: it must be an index allocated by add_map, the parent's "
                             "own index, or parent*D + t with t in [0, D) for the D slots initialised at creation" % show(idx),
                             node=m.eff.node, extra="index"))
-    r.require_instances(5)
+    r.require_instances(ctx.scaled(5))
     return r
 
 
